@@ -11,6 +11,7 @@ The property oracles (exact `Fraction` arithmetic, shapely) never use the model.
 from __future__ import annotations
 
 import math
+import random
 import re
 import types
 from fractions import Fraction
@@ -376,6 +377,190 @@ def mk_poly(O, pts, holes=None):
     return O.geom.polygon(ring + [ring[0]], CRS, *inner)
 
 
+
+# ----------------------------------------------------------------------------- query geometries of every kind
+def oracle_geom(C, gs, sp: Spec, shp, exact: bool, O, got=None, history=None, kind=""):
+    """`tiles_from_geopolygon` for ANY geometry the API accepts (shapely object `shp` in the grid's CRS), judged
+    per tile by shapely: returned  <=>  footprint meets the geometry, up to the 1e-8 edge-contact band."""
+    import shapely.geometry as sg
+
+    case = {"op": "geom", "grid": sp.tok(), "kind": kind or shp.geom_type, "wkb": shp.wkb_hex, "wkt": shp.wkt[:300]}
+    if history is not None:
+        case["history"] = history
+    try:
+        g = O.geom.Geometry(shp, CRS)
+        if got is None:
+            got = [tuple(map(int, k)) for k, _ in gs.tiles_from_geopolygon(g)]
+        cand = [(tuple(map(int, k)), gb) for k, gb in gs.tiles(g.boundingbox)]
+    except Exception as e:  # pylint: disable=broad-except
+        C.oracle(False, "polygon-query-raises", case, repr(e))
+        return
+    ref = [k for k, gb in cand if shp.intersects(sg.box(*gb.boundingbox))]
+    C.oracle(sorted(got) == sorted(ref) and len(set(got)) == len(got), "polygon-query-filter", case,
+             f"{shp.geom_type}: tiles_from_geopolygon {sorted(got)[:12]} but bbox tiles meeting the geometry (shapely) {sorted(ref)[:12]}",
+             sig="geom|" + (kind or shp.geom_type))
+    if not cand or len(cand) > 400:
+        return
+    bx = g.boundingbox
+    big = max(sp.scale(), *(abs(Fraction(v)) for v in bx))
+    s = float(0 if exact else Fraction(1, 10**9) * big)
+    tol = float(TOL)
+    ixs = [k[0] for k, _ in cand]
+    iys = [k[1] for k, _ in cand]
+    gotset = set(got)
+    for ix in range(min(ixs) - 1, max(ixs) + 2):
+        for iy in range(min(iys) - 1, max(iys) + 2):
+            l, b, r, t = gs[ix, iy].boundingbox
+            if (ix, iy) in gotset:
+                C.oracle(shp.intersects(sg.box(l - s, b - s, r + s, t + s)), "polygon-query-returns-disjoint-tile",
+                         dict(case, tile=[ix, iy]),
+                         f"{shp.geom_type}: tile {(ix, iy)} [{l},{b},{r},{t}] returned but it does not meet the geometry")
+            else:
+                m = tol + s + 1e-12 * float(big)
+                if r - l > 2 * m and t - b > 2 * m:
+                    C.oracle(not shp.intersects(sg.box(l + m, b + m, r - m, t - m)), "polygon-query-misses-tile",
+                             dict(case, tile=[ix, iy]),
+                             f"{shp.geom_type}: tile {(ix, iy)} [{l},{b},{r},{t}] meets the geometry by more than 1e-8 but was not returned")
+
+
+GEOM_KINDS = ("mpoly-row", "mpoly-col", "mpoly-diag", "mpoint-row", "mpoint-col", "mpoint-diag", "mline-row", "mline-col",
+              "collection", "line-diag", "line-row", "line-col", "polyline", "point", "point-edge", "holed", "L", "U", "ring-thin",
+              "mpoly-holed")
+
+
+def gen_shape(rng, sp: Spec, lattice: bool, kind: str, origin_tile=None):
+    """a shapely geometry of the given kind in a window of tiles; coordinates in tile units relative to tile
+    (i0, j0): parts of multi-geometries are separated by at least one complete tile"""
+    import shapely.geometry as sg
+
+    dx, dy = (-1 if sp.fx else 1), (-1 if sp.fy else 1)
+    if origin_tile is None:
+        origin_tile = (rng.randint(-3, 3), rng.randint(-3, 3)) if lattice else (rng.randint(-40, 40), rng.randint(-40, 40))
+    i0, j0 = origin_tile
+    L = Fraction(sp.ox) + dx * i0 * sp.szx
+    Bm = Fraction(sp.oy) + dy * j0 * sp.szy
+
+    def fr(lo=0, hi=1):
+        """a coordinate offset inside [lo, hi] tiles"""
+        if lattice:
+            return Fraction(rng.randint(int(lo * 8) + 1, int(hi * 8) - 1), 8)
+        return Fraction(rng.uniform(lo + 0.02, hi - 0.02))
+
+    def XY(a, b):
+        return (float(L + Fraction(a) * sp.szx), float(Bm + Fraction(b) * sp.szy))
+
+    def small_box(ti, tj):
+        a, b = sorted((fr(), fr()))
+        c, d = sorted((fr(), fr()))
+        if a == b:
+            a, b = Fraction(1, 8), Fraction(7, 8)
+        if c == d:
+            c, d = Fraction(1, 8), Fraction(7, 8)
+        return sg.box(*(XY(ti + a, tj + c) + XY(ti + b, tj + d)))
+
+    def pt(ti, tj):
+        return sg.Point(*XY(ti + fr(), tj + fr()))
+
+    def seg(ti, tj):
+        return sg.LineString([XY(ti + fr(), tj + fr()), XY(ti + fr(), tj + fr()), XY(ti + Fraction(1, 2), tj + Fraction(1, 4))])
+
+    gap = rng.choice([2, 2, 3, 4])     # index distance between parts: at least one whole empty tile
+    n = rng.choice([2, 2, 3])
+    where = {"row": [(gap * i, 0) for i in range(n)], "col": [(0, gap * i) for i in range(n)],
+             "diag": [(gap * i, gap * i * rng.choice([1, -1])) for i in range(n)]}
+    shape, _, arr = kind.partition("-")
+    if shape == "mpoly" and arr in where:
+        return sg.MultiPolygon([small_box(a, b) for a, b in where[arr]])
+    if shape == "mpoint":
+        return sg.MultiPoint([pt(a, b) for a, b in where[arr]])
+    if shape == "mline":
+        return sg.MultiLineString([seg(a, b) for a, b in where[arr]])
+    if kind == "collection":
+        cells = rng.choice([where["row"], where["col"], where["diag"]])
+        makers = [small_box, pt, seg]
+        return sg.GeometryCollection([makers[i % 3](a, b) for i, (a, b) in enumerate(cells)])
+    if kind == "line-diag":
+        return sg.LineString([XY(fr(), fr()), XY(3 + fr(), 2 + fr())])
+    if kind == "line-row":
+        y = fr()
+        return sg.LineString([XY(fr(), y), XY(3 + fr(), y if rng.random() < 0.5 else fr())])
+    if kind == "line-col":
+        x = fr()
+        return sg.LineString([XY(x, fr()), XY(x if rng.random() < 0.5 else fr(), 3 + fr())])
+    if kind == "polyline":
+        return sg.LineString([XY(fr(), fr()), XY(3 + fr(), fr()), XY(3 + fr(), 3 + fr())])
+    if kind == "point":
+        return pt(0, 0)
+    if kind == "point-edge":  # on a tile edge / corner
+        return sg.Point(*XY(rng.choice([0, 1, fr()]), rng.choice([0, 1])))
+    if kind == "holed":       # the hole swallows whole tiles
+        a, b = fr(), 3 + fr()
+        h0, h1 = Fraction(rng.choice([5, 6, 7]), 8), 2 + Fraction(rng.choice([1, 2, 3]), 8)
+        return sg.Polygon([XY(a, a), XY(b, a), XY(b, b), XY(a, b)], [[XY(h0, h0), XY(h0, h1), XY(h1, h1), XY(h1, h0)]])
+    if kind == "L":
+        w, a, b = fr(0, 0.5), Fraction(0), 3 + fr()
+        return sg.Polygon([XY(a, a), XY(b, a), XY(b, a + w), XY(a + w, a + w), XY(a + w, b), XY(a, b)])
+    if kind == "U":
+        w, b = fr(0, 0.5), 3 + fr()
+        return sg.Polygon([XY(0, 0), XY(b, 0), XY(b, b), XY(b - w, b), XY(b - w, w), XY(w, w), XY(w, b), XY(0, b)])
+    if kind == "ring-thin":   # a thin frame around 2x2 .. 3x3 whole tiles
+        a, w = fr(), Fraction(1, 8)
+        b = a + rng.choice([2, 3])
+        return sg.Polygon([XY(a, a), XY(b, a), XY(b, b), XY(a, b)],
+                          [[XY(a + w, a + w), XY(a + w, b - w), XY(b - w, b - w), XY(b - w, a + w)]])
+    if kind == "mpoly-holed":
+        a, b = Fraction(1, 8), 2 + Fraction(7, 8)
+        h0, h1 = Fraction(7, 8), 2 + Fraction(1, 8)
+        holed = sg.Polygon([XY(a, a), XY(b, a), XY(b, b), XY(a, b)], [[XY(h0, h0), XY(h0, h1), XY(h1, h1), XY(h1, h0)]])
+        return sg.MultiPolygon([holed, small_box(5, rng.choice([0, 1, 5]))])
+    raise ValueError(kind)
+
+
+def geom_queries(R_or_C, O, gs, sp: Spec, rng, lattice: bool, exact: bool, kinds):
+    """each kind: stateless query, query through a fresh cache, and query through a cache pre-filled by a bbox
+    query over the geometry's bounding box (must all agree and satisfy the per-tile shapely oracle)"""
+    for kind in kinds:
+        try:
+            shp = gen_shape(rng, sp, lattice, kind)
+        except Exception:  # pylint: disable=broad-except
+            continue
+        if shp.is_empty or not shp.is_valid:
+            continue
+        oracle_geom(R_or_C, gs, sp, shp, exact, O, kind=kind)
+        case = {"op": "geom", "grid": sp.tok(), "kind": kind, "wkb": shp.wkb_hex, "wkt": shp.wkt[:300], "cache": True}
+        try:
+            g = O.geom.Geometry(shp, CRS)
+            alone = [tuple(map(int, k)) for k, _ in gs.tiles_from_geopolygon(g)]
+            c1 = {}
+            fresh = [tuple(map(int, k)) for k, _ in gs.tiles_from_geopolygon(g, c1)]
+            c2 = {}
+            list(gs.tiles(g.boundingbox, c2))
+            filled = [tuple(map(int, k)) for k, _ in gs.tiles_from_geopolygon(g, c2)]
+            want = {tuple(map(int, k)) for k, _ in gs.tiles(g.boundingbox)}
+            ok = alone == fresh == filled and set(c1) == want and set(c2) == want and all(c1[k] == gs.tile_geobox(k) for k in c1)
+            R_or_C.oracle(ok, "polygon-query-depends-on-cache", case,
+                          f"{kind}: no cache {sorted(alone)[:8]}, fresh cache {sorted(fresh)[:8]}, pre-filled cache {sorted(filled)[:8]}; "
+                          f"cache keys {sorted(c1)[:8]} expected {sorted(want)[:8]}", sig="geom|cache")
+        except Exception as e:  # pylint: disable=broad-except
+            R_or_C.oracle(False, "polygon-query-raises", case, repr(e))
+
+
+def other_crs_geom(O, shp4326, grid=None):
+    """geometry in EPSG:4326 queried against the Australian Albers grid; reference = shapely per tile on the geometry
+    as reprojected by the library itself (with and without a cache)"""
+    import shapely.geometry as sg
+
+    try:
+        gsa = grid or O.GridSpec("epsg:3577", (4000, 4000), 25.0)
+        g = O.geom.Geometry(shp4326, "epsg:4326")
+        got = sorted(tuple(map(int, k)) for k, _ in gsa.tiles_from_geopolygon(g))
+        gotc = sorted(tuple(map(int, k)) for k, _ in gsa.tiles_from_geopolygon(g, {}))
+        pp = g.to_crs("epsg:3577", check_and_fix=True)
+        ref = sorted(tuple(map(int, k)) for k, gb in gsa.tiles(pp.boundingbox) if pp.geom.intersects(sg.box(*gb.boundingbox)))
+        return got == ref == gotc and len(got) > 0, f"{shp4326.geom_type}: tiles_from_geopolygon {got[:8]} (with cache {gotc[:8]}) vs shapely reference {ref[:8]}"
+    except Exception as e:  # pylint: disable=broad-except
+        return False, repr(e)
+
 # ----------------------------------------------------------------------------- histories (shared geobox_cache)
 def key_yx(k):
     return (k[1], k[0])
@@ -400,11 +585,13 @@ def run_history(O, gs, steps):
         if kind == "T":
             gs.tile_geobox(arg)
             continue
-        c = cache if kind in "BPQ" else None
+        c = cache if kind in "BPQG" else None
         if kind in "Bb":
             res = list(gs.tiles(O.BoundingBox(*arg, CRS), c))
         elif kind in "Pp":
             res = list(gs.tiles_from_geopolygon(mk_poly(O, arg), c))
+        elif kind == "G":
+            res = list(gs.tiles_from_geopolygon(O.geom.Geometry(arg, CRS), c))
         else:
             res = list(gs.tiles_from_geopolygon(mk_poly(O, arg[0], arg[1]), c))
         outs.append((kind, arg, [(tuple(map(int, k)), gb) for k, gb in res]))
@@ -425,6 +612,8 @@ def steps_json(steps):
             out.append([kind, [[fs(x), fs(y)] for x, y in arg]])
         elif kind == "Q":
             out.append([kind, [[fs(x), fs(y)] for x, y in arg[0]], [[[fs(x), fs(y)] for x, y in h] for h in arg[1]]])
+        elif kind == "G":
+            out.append([kind, arg.wkb_hex, arg.wkt[:120]])
         else:
             out.append([kind, list(arg)])
     return out
@@ -441,6 +630,9 @@ def steps_from_json(js):
             steps.append((kind, [(f(x), f(y)) for x, y in st[1]]))
         elif kind == "Q":
             steps.append((kind, ([(f(x), f(y)) for x, y in st[1]], [[(f(x), f(y)) for x, y in h] for h in st[2]])))
+        elif kind == "G":
+            import shapely
+            steps.append((kind, shapely.from_wkb(bytes.fromhex(st[1]))))
         else:
             steps.append((kind, tuple(st[1])))
     return steps
@@ -469,6 +661,14 @@ def oracle_history(C, gs, sp: Spec, steps, exact: bool, O):
                      f"step {n}: tiles(bbox, cache) = {got[:8]} but tiles(bbox) = {alone[:8]}", sig="history|bbox")
             if kind == "B":
                 want_keys |= set(alone)
+        elif kind == "G":
+            g = O.geom.Geometry(arg, CRS)
+            alone = [tuple(map(int, k)) for k, _ in gs.tiles_from_geopolygon(g)]
+            C.oracle(got == alone, "polygon-query-depends-on-cache", dict(case, step=n),
+                     f"step {n}: {arg.geom_type} query through the shared cache = {sorted(got)[:10]} but without the cache {sorted(alone)[:10]}",
+                     sig="history|geom")
+            oracle_geom(C, gs, sp, arg, exact, O, got=got, history=hj)
+            want_keys |= {tuple(map(int, k)) for k, _ in gs.tiles(g.boundingbox)}
         else:
             pts, holes = (arg, None) if kind in "Pp" else arg
             poly = mk_poly(O, pts, holes)
@@ -545,6 +745,13 @@ def gen_history(rng, sp: Spec, lattice: bool):
             p = hull()
             if p:
                 steps.append((rng.choice("PPPp"), p))
+        elif r < 0.74:
+            try:
+                shp = gen_shape(rng, sp, lattice, rng.choice(GEOM_KINDS), origin_tile=(i0, j0))
+                if shp.is_valid and not shp.is_empty:
+                    steps.append(("G", shp))
+            except Exception:  # pylint: disable=broad-except
+                pass
         elif r < 0.8:
             steps.append(("Q", lshape()))
         elif r < 0.88:
@@ -560,7 +767,7 @@ def gen_history(rng, sp: Spec, lattice: bool):
 
 def emit_history(R: Run, O, gs, sp: Spec, steps, modes: str, exact: bool):
     res = oracle_history(R, gs, sp, steps, exact, O)
-    if res is None or any(k == "Q" for k, _ in steps):
+    if res is None or any(k in "QG" for k, _ in steps):
         return  # polygons with holes / non-convex ones: oracle only (the driver's `disjoint` is for convex rings)
     outs, cache = res
     real = hist_s(outs, cache)
@@ -1010,6 +1217,13 @@ def run(R: Run):
             emit_poly(R, O, gs, sp, pts, "EF", "|lattice")
             oracle_polygon(R, gs, sp, pts, True, O)
 
+    # --- query geometries of every kind the API accepts (multi-part with far-apart parts in one row / column /
+    #     diagonal, points, lines, collections, holes swallowing whole tiles, concave shapes): oracle only
+    for sp in rng.sample(lattice, R.pick(40, 64)):
+        geom_queries(R, O, sp.make(O), sp, rng, True, True, rng.sample(GEOM_KINDS, R.pick(8, len(GEOM_KINDS))))
+    for sp in rng.sample(exact_specs, min(len(exact_specs), R.pick(30, 300))):
+        geom_queries(R, O, sp.make(O), sp, rng, False, False, rng.sample(GEOM_KINDS, R.pick(5, 10)))
+
     # --- histories: ONE caller-supplied geobox_cache shared by a sequence of different bbox / polygon queries
     #     (state carried across calls); every step is compared with the stateless query and the shapely oracle
     for sp in rng.sample(lattice, R.pick(32, 64)):
@@ -1124,16 +1338,31 @@ def run(R: Run):
             oracle_polygon(R, gs, sp, pts, False, O)
         if rng.random() < 0.5:
             emit_history(R, O, gs, sp, gen_history(rng, sp, False), "F", False)
+        geom_queries(R, O, gs, sp, rng, False, False, rng.sample(GEOM_KINDS, 3))
         jb = gs[j].boundingbox
         oracle_sample_tile(R, O, tuple(jb), sp.ny, sp.nx, j[0], j[1], sp.fx, sp.fy, k)
 
-    # polygon given in another CRS (reprojected by the library first): shapely on the reprojected polygon
-    for _ in range(R.pick(5, 40)):
-        lon, lat = rng.uniform(115, 150), rng.uniform(-40, -12)
+    # geometries given in another CRS (reprojected by the library first): shapely on the reprojected geometry
+    import shapely.geometry as sg
+    for _ in range(R.pick(6, 40)):
+        lon, lat = rng.uniform(115, 148), rng.uniform(-40, -12)
         ring = [(lon, lat), (lon + rng.uniform(0.5, 3), lat), (lon + 1, lat + rng.uniform(0.5, 3)), (lon, lat)]
         ok, what = other_crs_case(O, ring)
         R.oracle(ok, "polygon-query-other-crs", {"op": "poly4326", "ring": [list(p) for p in ring]}, what,
                  sig="poly|other-crs")
+        d = rng.uniform(3, 8)
+        sb = lambda x, y: sg.box(x, y, x + rng.uniform(0.05, 0.3), y + rng.uniform(0.05, 0.3))
+        shapes = [sg.MultiPolygon([sb(lon, lat), sb(lon + d, lat)]), sg.MultiPolygon([sb(lon, lat), sb(lon, lat + d / 2)]),
+                  sg.MultiPoint([(lon, lat), (lon + d, lat + rng.uniform(-1, 1))]), sg.Point(lon, lat),
+                  sg.LineString([(lon, lat), (lon + d, lat + 1)]),
+                  sg.MultiLineString([[(lon, lat), (lon + 0.2, lat + 0.1)], [(lon + d, lat), (lon + d + 0.2, lat - 0.1)]]),
+                  sg.GeometryCollection([sb(lon, lat), sg.Point(lon + d, lat), sg.LineString([(lon, lat + 3), (lon + 0.3, lat + 3.2)])]),
+                  sg.Polygon([(lon, lat), (lon + 4, lat), (lon + 4, lat + 4), (lon, lat + 4)],
+                             [[(lon + 0.5, lat + 0.5), (lon + 0.5, lat + 3.5), (lon + 3.5, lat + 3.5), (lon + 3.5, lat + 0.5)]])]
+        for shp in rng.sample(shapes, R.pick(3, len(shapes))):
+            ok, what = other_crs_geom(O, shp)
+            R.oracle(ok, "polygon-query-other-crs", {"op": "geom4326", "wkb": shp.wkb_hex, "wkt": shp.wkt[:300]}, what,
+                     sig="geom|other-crs|" + shp.geom_type)
 
     # --- web tiles ------------------------------------------------------------------------------------
     # (a) the real constant: F mode must reproduce every rounding of pi*R*(2**(1-z)), y - tsz, …
@@ -1294,6 +1523,8 @@ def search(R: Run, mismatches):
                     oracle_point(C, gs, sp, x, y, False)
                 oracle_query(C, gs, sp, tuple(bb), False, O)
                 oracle_roundtrip(C, gs, sp, (2, -1), [(0, 0), (5, 7)], False, O)
+                if op == "poly":
+                    geom_queries(C, O, gs, sp, random.Random(seen), False, False, GEOM_KINDS)
             elif op == "hist":
                 sp = Spec.from_tok(t[3:11])
                 gs = sp.make(O)
@@ -1307,6 +1538,7 @@ def search(R: Run, mismatches):
                         steps.append((t[i], [tuple(f(v) for v in q.split(";")) for q in t[i + 1][1:-1].split(",")]))
                         i += 2
                 oracle_history(C, gs, sp, steps, False, O)
+                geom_queries(C, O, gs, sp, random.Random(seen), False, False, GEOM_KINDS)
             elif op == "fsb":
                 f = lambda v: float(Fraction(v))
                 oracle_sample_bin(C, O, int(t[3]), f(t[4]), f(t[5]), int(t[6]), int(t[3]) + 1000)
@@ -1337,6 +1569,9 @@ def search(R: Run, mismatches):
                 pts = [(bb.left, bb.bottom), (bb.right + float(spx.szx), bb.bottom), (bb.left, bb.top + float(spx.szy))]
                 oracle_polygon(C, gs, spx, pts, False, O)
             oracle_roundtrip(C, gs, spx, (3, -2), [(0, 0), (1, 1), (-4, 6)], False, O)
+            for n in range(4):
+                geom_queries(C, O, gs, spx, random.Random(n), False, False, GEOM_KINDS)
+                oracle_history(C, gs, spx, gen_history(random.Random(n), spx, False), False, O)
         except Exception:  # pylint: disable=broad-except
             pass
         if C.fail:
@@ -1358,7 +1593,35 @@ def replay(R: Run, rec) -> int:
     C = Collector()
     op = case.get("op")
     f = lambda s: float(Fraction(s))
-    if op == "history":
+    if op == "geom":
+        import shapely
+        sp = Spec.from_tok(case["grid"].split(" "))
+        gs = sp.make(O)
+        shp = shapely.from_wkb(bytes.fromhex(case["wkb"]))
+        print("geometry:", shp.wkt[:400])
+        print("tiles_from_geopolygon on the real code:",
+              guarded(lambda: str(sorted(tuple(map(int, k)) for k, _ in gs.tiles_from_geopolygon(O.geom.Geometry(shp, CRS))))))
+        if "history" in case:
+            oracle_history(C, gs, sp, steps_from_json(case["history"]), False, O)
+        else:
+            oracle_geom(C, gs, sp, shp, False, O)
+            # cache variants of the same geometry
+            try:
+                g = O.geom.Geometry(shp, CRS)
+                a = [k for k, _ in gs.tiles_from_geopolygon(g)]
+                c2 = {}
+                list(gs.tiles(g.boundingbox, c2))
+                b2 = [k for k, _ in gs.tiles_from_geopolygon(g, c2)]
+                if a != b2 and C.fail is None:
+                    C.fail = {"what": f"result depends on the cache: {sorted(a)[:8]} vs {sorted(b2)[:8]}"}
+            except Exception as e:  # pylint: disable=broad-except
+                C.fail = C.fail or {"what": repr(e)}
+    elif op == "geom4326":
+        import shapely
+        ok, what = other_crs_geom(O, shapely.from_wkb(bytes.fromhex(case["wkb"])))
+        print(what)
+        return 0 if ok else 1
+    elif op == "history":
         sp = Spec.from_tok(case["grid"].split(" "))
         oracle_history(C, sp.make(O), sp, steps_from_json(case["steps"]), False, O)
     elif op == "poly" and "history" in case:
